@@ -371,6 +371,7 @@ theorem NodeOK.sinv {a : Adm} {cfg8 : C08.Cfg} (G : C08.Good cfg8) {w : Wire} {n
   rw [h.2, digests_eq_build]
   exact build_chain G w nd.st.txs h.1.inv.chain h.1.small
 
+
 section ProtoView
 open Nuts.Proto Nuts.Proto.L
 /-! ## the gossip protocol's view (C07) -/
@@ -788,5 +789,259 @@ theorem latePayload_txs (a : Adm) (s : C06.St) (ref p : Nat) : (C06.latePayload 
 
 
 end ProtoView
+
+
+/-! ### the head, the prev verifier and the structural decision of `Add`: C06 and C08 agree -/
+
+
+/-- the head the digest layer records after an admitted transaction: C08's rule on C08's own highest clock -/
+theorem feed_head {cfg : C08.Cfg} {w : Wire} {l : List C06.Tx} {s : C08.State n}
+    (h : C08.SInv cfg s) (R : Rel w l s.disk) {tx : C06.Tx} (hs : Small tx.ref) (hf : tx.ref ∉ C06.refsOf l)
+    (hv : C06.verifyPrevs l tx = .ok ()) (hroot : tx.prevs = [] → C06.hasRoot l = false) :
+    (feed cfg s (embTx w tx)).disk.head =
+      if tx.clock > s.disk.lcHigh ∨ tx.clock = 0 then some (embRef tx.ref) else s.disk.head := by
+  have hp := R.fresh hs hf
+  have hv8 := R.verifyPrevs (w := w) hv
+  have hcond : ((embTx w tx).prevs.isEmpty && !((C08.getSorted 0 s.disk.clocks).getD []).isEmpty) = false := by
+    rw [R.rootCond h.g]
+    cases hpe : tx.prevs with
+    | nil => simp [hroot hpe]
+    | cons a b => simp [hpe]
+  unfold feed C08.add
+  rw [show s.disk.isPresent (embTx w tx).ref = false from hp]
+  simp only [Bool.false_eq_true, if_false, hv8]
+  simp only [C08.Disk.graphAdd, show s.disk.isPresent (embTx w tx).ref = false from hp, hcond, Bool.false_eq_true, if_false]
+  simp [C08.putFailsIn, C08.updateState, C08.Disk.indexClock]
+  by_cases hc : tx.clock > s.disk.lcHigh ∨ tx.clock = 0
+  · rcases hc with hc | hc <;> simp [hc]
+  · have h1 : ¬ tx.clock > s.disk.lcHigh := fun e => hc (Or.inl e)
+    have h2 : ¬ tx.clock = 0 := fun e => hc (Or.inr e)
+    simp [h1, h2]
+    split <;> rfl
+
+/-- the two layers record the same head -/
+def HeadOK (nd : Node n) : Prop :=
+  (nd.st.txs = [] ∧ nd.dg.disk.head = none) ∨ (nd.st.txs ≠ [] ∧ nd.dg.disk.head = some (embRef nd.st.head))
+
+theorem HeadOK.step {a : Adm} {cfg8 : C08.Cfg} (G : C08.Good cfg8) {w : Wire} {nd : Node n} (hn : NodeOK a cfg8 w nd)
+    (hh : HeadOK nd) (d : Delivery) (hd : Small d.ref) : HeadOK (nd.step a cfg8 w d) := by
+  obtain ⟨hsinv, hrel⟩ := hn.sinv G
+  have hlc : nd.dg.disk.lcHigh = nd.st.lcHigh := by
+    rw [hsinv.g.lc, hrel.txs, maxClock_embList, hn.1.inv.lcHigh]
+  rcases deliver6_cases a nd.st d with e | ⟨tx, p, hr, _, ha⟩
+  · have : nd.step a cfg8 w d = { st := (deliver6 a nd.st d).1, dg := nd.dg } := by
+      show ({ st := (deliver6 a nd.st d).1, dg := (embList w (newTxs nd.st (deliver6 a nd.st d).1)).foldl (feed cfg8) nd.dg } : Node n) = _
+      rw [newTxs_same e]; rfl
+    rw [this]
+    unfold HeadOK
+    simp only [e]
+    exact hh
+  · have hdg : (nd.step a cfg8 w d).dg = feed cfg8 nd.dg (embTx w tx) := by
+      show (embList w (newTxs nd.st (deliver6 a nd.st d).1)).foldl (feed cfg8) nd.dg = _
+      rw [newTxs_cons ha.txs]; simp [embList]
+    have hst : (nd.step a cfg8 w d).st = (deliver6 a nd.st d).1 := rfl
+    right
+    refine ⟨by rw [hst, ha.txs]; simp, ?_⟩
+    rw [hdg, hst, feed_head hsinv hrel (hr ▸ hd) ha.fresh ha.prevsOK ha.rootOK, ha.head, hlc]
+    by_cases hc : tx.clock > nd.st.lcHigh ∨ tx.clock = 0
+    · simp only [hc, if_true]
+    · simp only [hc, if_false]
+      rcases hh with ⟨he, _⟩ | ⟨_, hh⟩
+      · exfalso
+        have h0 : nd.st.lcHigh = 0 := by rw [hn.1.inv.lcHigh, he]; rfl
+        have hp : tx.prevs = [] := by
+          cases hps : tx.prevs with
+          | nil => rfl
+          | cons q qs =>
+            obtain ⟨u, hu, _⟩ := (C06.verifyPrevs_spec ha.prevsOK).1 q (by rw [hps]; exact List.mem_cons_self)
+            rw [he] at hu; cases hu
+        exact hc (Or.inr ((C06.verifyPrevs_spec ha.prevsOK).2.1 hp))
+      · exact hh
+
+theorem headOK_run {a : Adm} {cfg8 : C08.Cfg} (G : C08.Good cfg8) {w : Wire} : ∀ (ds : List Delivery) {nd : Node n},
+    NodeOK a cfg8 w nd → HeadOK nd → (∀ d ∈ ds, Small d.ref) → HeadOK (ds.foldl (Node.step a cfg8 w) nd) := by
+  intro ds
+  induction ds with
+  | nil => intro nd _ h _; exact h
+  | cons d t ih =>
+    intro nd hn hh hs
+    exact ih (hn.step d (hs d List.mem_cons_self)) (hh.step G hn d (hs d List.mem_cons_self))
+      (fun x hx => hs x (List.mem_cons_of_mem _ hx))
+
+
+
+
+theorem Rel.getTx_none {w : Wire} {l : List C06.Tx} {d : C08.Disk n} (R : Rel w l d) {p : Nat} (hs : Small p)
+    (h : C06.findTx l p = none) : d.getTx (embRef p) = none := by
+  have hp := R.fresh hs (C06.findTx_none_iff.mp h)
+  unfold C08.Disk.isPresent at hp
+  unfold C08.Disk.getTx
+  rw [List.find?_eq_none]
+  intro x hx hq
+  have := List.any_eq_false.mp hp x hx
+  exact this hq
+
+/-- how C08 names the two errors of the prev verifier that C06 calls "prev-missing" and "clock" -/
+def prevErr8 : Res Unit → Res Unit
+  | .ok u => .ok u
+  | .err e => .err (if e = "prev-missing" then "missing-prev" else "bad-clock")
+  | .panic p => .panic p
+
+def loopRes8 : Res Int → Res Nat
+  | .ok h => .ok (h + 1).toNat
+  | .err _ => .err "missing-prev"
+  | .panic p => .panic p
+
+theorem Rel.loop_agree {w : Wire} {l : List C06.Tx} {d : C08.Disk n} (R : Rel w l d) :
+    ∀ (ps : List Nat) (h : Int), -1 ≤ h → (∀ p ∈ ps, Small p) →
+      d.verifyPrevsLoop (ps.map embRef) (h + 1).toNat = loopRes8 (C06.highest l ps h) := by
+  intro ps
+  induction ps with
+  | nil => intro h _ _; rfl
+  | cons p ps ih =>
+    intro h hh hs
+    have hsp := hs p List.mem_cons_self
+    have hsr : ∀ q ∈ ps, Small q := fun q hq => hs q (List.mem_cons_of_mem _ hq)
+    unfold C06.highest
+    cases hf : C06.findTx l p with
+    | none =>
+      simp only [List.map_cons, C08.Disk.verifyPrevsLoop, R.getTx_none hsp hf]
+      rfl
+    | some t =>
+      simp only [List.map_cons, C08.Disk.verifyPrevsLoop, R.getTx hf]
+      have := ih (if (t.clock : Int) ≥ h then (t.clock : Int) else h) (by split <;> omega) hsr
+      have hk : (if t.clock + 1 ≥ (h + 1).toNat then t.clock + 1 else (h + 1).toNat) =
+          ((if (t.clock : Int) ≥ h then (t.clock : Int) else h) + 1).toNat := by
+        split <;> split <;> omega
+      rw [← hk] at this; exact this
+
+theorem highest_err {l : List C06.Tx} : ∀ (ps : List Nat) (h : Int) (e : String), C06.highest l ps h = .err e → e = "prev-missing" := by
+  intro ps
+  induction ps with
+  | nil => intro h e hk; simp [C06.highest] at hk
+  | cons q qs ih =>
+    intro h e hk
+    unfold C06.highest at hk
+    split at hk
+    · cases hk; rfl
+    · exact ih _ _ hk
+
+theorem highest_no_panic {l : List C06.Tx} : ∀ (ps : List Nat) (h : Int) (p : String), C06.highest l ps h ≠ .panic p := by
+  intro ps
+  induction ps with
+  | nil => intro h p hk; simp [C06.highest] at hk
+  | cons q qs ih =>
+    intro h p hk
+    unfold C06.highest at hk
+    split at hk
+    · cases hk
+    · exact ih _ _ hk
+
+/-- **the two models of `NewPrevTransactionsVerifier` agree** on related stores, outcome by outcome -/
+theorem Rel.verifyPrevs_agree {w : Wire} {l : List C06.Tx} {d : C08.Disk n} (R : Rel w l d) (tx : C06.Tx)
+    (hs : ∀ p ∈ tx.prevs, Small p) : d.verifyPrevs (embTx w tx) = prevErr8 (C06.verifyPrevs l tx) := by
+  have hl := R.loop_agree tx.prevs (-1) (by omega) hs
+  have h0 : ((-1 : Int) + 1).toNat = 0 := rfl
+  rw [h0] at hl
+  unfold C08.Disk.verifyPrevs C06.verifyPrevs
+  simp only [embTx_prevs, embTx_clock, hl]
+  cases hk : C06.highest l tx.prevs (-1) with
+  | ok hh =>
+    have hge := (C06.highest_spec hk).1
+    simp only [loopRes8]
+    by_cases hc : (tx.clock : Int) ≠ hh + 1
+    · have : tx.clock ≠ (hh + 1).toNat := by omega
+      simp [hc, this, prevErr8]
+    · have : ¬ tx.clock ≠ (hh + 1).toNat := by omega
+      simp [hc, this, prevErr8]
+  | err e =>
+    have : e = "prev-missing" := highest_err _ _ _ hk
+    simp [loopRes8, prevErr8, this]
+  | panic p => exact absurd hk (highest_no_panic _ _ _)
+
+
+
+/-- C08's `add` (fault-free, no payload) stores a transaction on a related state exactly when C06's structural checks
+    pass: not yet stored, prev verifier ok, single-root rule -/
+theorem add8_stores_iff {cfg : C08.Cfg} (G : C08.Good cfg) {w : Wire} {l : List C06.Tx} {s : C08.State n}
+    (h : C08.SInv cfg s) (R : Rel w l s.disk) (tx : C06.Tx) (hs : Small tx.ref) (hps : ∀ p ∈ tx.prevs, Small p) :
+    (C08.add cfg s (embTx w tx) {}).1.disk.txs = s.disk.txs ++ [embTx w tx] ↔
+      (tx.ref ∉ C06.refsOf l ∧ C06.verifyPrevs l tx = .ok () ∧ (tx.prevs = [] → C06.hasRoot l = false)) := by
+  constructor
+  · intro happ
+    have a := h.add G (embTx w tx) {}
+    have hne : ∀ {x : List C08.Tx} {y : C08.Tx}, x ≠ x ++ [y] := by
+      intro x y e
+      have := congrArg List.length e
+      simp at this
+    have hok : (C08.add cfg s (embTx w tx) {}).2 = .ok () := by
+      by_cases hok : (C08.add cfg s (embTx w tx) {}).2 = .ok ()
+      · exact hok
+      · rw [a.2.1 hok] at happ; exact absurd happ hne
+    have hnp : s.disk.isPresent (embTx w tx).ref = false := by
+      rcases a.2.2 hok with ⟨e, _⟩ | ⟨_, hp⟩
+      · rw [e] at happ; exact absurd happ hne
+      · exact hp
+    have hnp' : s.disk.isPresent (embRef tx.ref) = false := hnp
+    have hfresh : tx.ref ∉ C06.refsOf l := by
+      intro hin
+      have := R.present hin
+      rw [show s.disk.isPresent (embTx w tx).ref = s.disk.isPresent (embRef tx.ref) from rfl, this] at hnp
+      cases hnp
+    have hv8 : s.disk.verifyPrevs (embTx w tx) = .ok () := by
+      cases hv : s.disk.verifyPrevs (embTx w tx) with
+      | ok u => rfl
+      | err e => exfalso; revert hok; unfold C08.add; simp [hnp', hv]
+      | panic e => exfalso; revert hok; unfold C08.add; simp [hnp', hv]
+    have hv6 : C06.verifyPrevs l tx = .ok () := by
+      have := R.verifyPrevs_agree (w := w) tx hps
+      rw [hv8] at this
+      cases hv : C06.verifyPrevs l tx with
+      | ok u => rfl
+      | err e => rw [hv] at this; cases this
+      | panic e => rw [hv] at this; cases this
+    refine ⟨hfresh, hv6, ?_⟩
+    intro hp
+    rw [← R.rootCond h.g]
+    cases hc : (!((C08.getSorted 0 s.disk.clocks).getD []).isEmpty) with
+    | false => rfl
+    | true =>
+      exfalso
+      revert hok
+      unfold C08.add
+      simp [hnp', hv8, C08.putFailsIn, C08.Disk.graphAdd, hp, hc]
+  · rintro ⟨h1, h2, h3⟩
+    have := feed_admitted G h R hs h1 h2 h3 (w := w)
+    rw [show (C08.add cfg s (embTx w tx) {}).1 = feed cfg s (embTx w tx) from rfl, this.2.2.txs, R.txs, embList_cons]
+
+
+
+/-- a sequential run of `Add` calls (C06 `seqRun`) is a sequence of deliveries -/
+theorem seqRun_is_deliveries (a : Adm) (calls : List C06.Call) : ∀ (order : List Nat) (acc : C06.St × List (Nat × Res Unit)),
+    ∃ ds : List Delivery, (∀ d ∈ ds, ∃ c ∈ calls, d = .tx c.tx c.payload) ∧
+      (order.foldl (C06.seqStep a.env a.subs calls) acc).1 = ds.foldl (step6 a) acc.1 := by
+  intro order
+  induction order with
+  | nil => intro acc; exact ⟨[], by simp, rfl⟩
+  | cons i rest ih =>
+    intro acc
+    simp only [List.foldl_cons]
+    cases hc : calls[i]? with
+    | none =>
+      have : C06.seqStep a.env a.subs calls acc i = acc := by simp [C06.seqStep, hc]
+      rw [this]; exact ih acc
+    | some c =>
+      obtain ⟨ds, h1, h2⟩ := ih (C06.seqStep a.env a.subs calls acc i)
+      refine ⟨.tx c.tx c.payload :: ds, ?_, ?_⟩
+      · intro d hd
+        rcases List.mem_cons.mp hd with rfl | hd
+        · exact ⟨c, List.mem_of_getElem? hc, rfl⟩
+        · exact h1 d hd
+      · rw [h2]
+        simp only [List.foldl_cons]
+        congr 1
+        simp [C06.seqStep, hc, step6, deliver6]
+
+
 
 end Nuts.Compose.Dag
